@@ -44,10 +44,19 @@ type c12Data struct {
 	step [][4]int // per occurrence: step index of definition, references, highlight, hover
 }
 
+// c12Members: also probe the member names of method definitions and member reads (off: the member dimension is the
+// subject of Modules.tla).
+var c12Members = false
+
 func c12Build(id int, raw json.RawMessage) *Job {
 	var tc scCase
 	if json.Unmarshal(raw, &tc) != nil {
 		return nil
+	}
+	for i := range tc.Items {
+		if it := &tc.Items[i]; it.K == "meth" && it.Mi > 0 && c12Members {
+			it.MName = fmt.Sprintf("mm%d", it.Mi)
+		}
 	}
 	r := scRenderMode(tc.Items, scModeOf(raw, scSeed))
 	pc := &proto.Case{ID: id, Files: r.files(), Init: json.RawMessage(allOnLocal)}
@@ -107,6 +116,28 @@ func parseHover(reply json.RawMessage) (name string, local bool, ok bool) {
 	line = strings.TrimPrefix(line, "function ")
 	name = reIdent.FindString(line)
 	return name, local, true
+}
+
+// hoverMentions reports whether the hover's first code line contains name as an identifier.
+func hoverMentions(reply json.RawMessage, name string) bool {
+	var h struct {
+		Contents struct {
+			Value string `json:"value"`
+		} `json:"contents"`
+	}
+	if json.Unmarshal(reply, &h) != nil {
+		return false
+	}
+	m := reHoverHead.FindStringSubmatch(h.Contents.Value)
+	if m == nil {
+		return false
+	}
+	for _, id := range reIdent.FindAllString(m[1], -1) {
+		if id == name {
+			return true
+		}
+	}
+	return false
 }
 
 func hlToPos(file string, reply json.RawMessage) []tpos {
@@ -248,6 +279,13 @@ func checkC12(c *Ctx) {
 			row.Refs = locsToPos(rl)
 			row.Hl = hlToPos(d.r.Files[o.File], res.Steps[st[2]].Reply)
 			row.HName, row.HLocal, _ = parseHover(res.Steps[st[3]].Reply)
+			if o.Role == "mdef" || o.Role == "muse" {
+				// a member is presented under its qualified name (t.f); whether a member of a local table "is a local" is left open
+				if hoverMentions(res.Steps[st[3]].Reply, o.Name) {
+					row.HName = o.Name
+				}
+				row.DefKnown = false
+			}
 			t.Rows = append(t.Rows, row)
 		}
 		if len(t.Rows) == 0 {
